@@ -63,6 +63,7 @@ class udp(packet_base):
         self.dstport = 0
         self.len = 8
         self.csum = 0
+        self._no_csum = False # Parsed from a datagram sent without checksum
 
         if raw is not None:
             self.parse(raw)
@@ -84,6 +85,7 @@ class udp(packet_base):
 
         (self.srcport, self.dstport, self.len, self.csum) \
             = struct.unpack('!HHHH', raw[:udp.MIN_LEN])
+        self._no_csum = (self.csum == 0)
 
         self.hdr_len = udp.MIN_LEN
         self.payload_len = self.len - self.hdr_len
@@ -130,7 +132,12 @@ class udp(packet_base):
 
     def hdr(self, payload):
         self.len = len(payload) + udp.MIN_LEN
-        self.csum = self.checksum()
+        if self._no_csum:
+            # The sender chose not to use a checksum (RFC 768); passing the
+            # datagram on, even rewritten, doesn't give it one
+            self.csum = 0
+        else:
+            self.csum = self.checksum()
         return struct.pack('!HHHH', self.srcport, self.dstport, self.len, self.csum)
 
     def checksum(self, unparsed=False):
